@@ -302,7 +302,7 @@ func runReq(raw json.RawMessage, seed int64, rec *Rec) {
 	case "msgthenbad":
 		body = append(env(0, encodeBV(codec, m1)), env(0, bad)...)
 	}
-	if s.Enc == "gzip" && len(body) > 0 && s.Body != "garbage" && s.Body != "truncated" && s.Body != "cnoenc" && s.Body != "flagged" && s.Body != "flagged0" {
+	if (s.Enc == "gzip" || s.Enc == "GZIP") && len(body) > 0 && s.Body != "garbage" && s.Body != "truncated" && s.Body != "cnoenc" && s.Body != "flagged" && s.Body != "flagged0" {
 		// a correctly compressed variant of the same body
 		if rawBody {
 			body = refcodec.Gzip(body)
@@ -328,6 +328,9 @@ func runReq(raw json.RawMessage, seed int64, rec *Rec) {
 	switch s.Enc {
 	case "gzip":
 		req.Header.Set(encodingHeader(protoName, rawBody), "gzip")
+	case "GZIP":
+		// a registered name in another letter case: unknown or gzip, but not something in between
+		req.Header.Set(encodingHeader(protoName, rawBody), []string{"GZIP", "Gzip"}[rng.Intn(2)])
 	case "unknown":
 		req.Header.Set(encodingHeader(protoName, rawBody), "zstd-verif")
 	}
